@@ -83,12 +83,12 @@ P = {
   "Lean 4 proof (permutation invariance per map, pure-function histories) + repeated-history differential correspondence",
   "DESIGN.md §5 C10"),
  "C13": (True,
-  "PARTIAL. Lean model of RecordArtifact(s): normalisation on bytes, lexical walk with exclusion oracle, file symlinks always / directory symlinks on request, prefix stripping, uniqueness, errors, match-products. Proved: normalisation laws (no CR, CRLF and CR to one LF, idempotent, identity without CR), per-node walk rules, error cases, panic-freedom, match-products = three-way difference, and walk EXACTNESS for trees without symbolic links: the result holds exactly one entry per regular file that is not excluded (declarative FileAt relation), under its path with the first matching strip prefix removed, nothing else, names pairwise distinct, an unhashable file fails the walk. Every run materialises generated trees (depth <= 4, empty/binary/CR-LF contents, symlinks to files and directories, dangling links, several roots incl. unclean and missing ones), all algorithm subsets plus unknown names, both switches, exclude patterns, strip prefixes, and compares RecordArtifacts with the model fed with crypto/sha* digests; normalisation against the model's byte function; match-products; before/after discipline of run and record start/stop; symlink cycles (no crash/hang).",
-  COMMON_NOTE + "Correspondence only: walk exactness in the presence of symlinks, go-pathspec pattern semantics (oracle), symlink cycles, permissions, Windows paths. One recorded finding (F19: prefix not stripped from symlink keys).",
+  "PARTIAL. Lean model of RecordArtifact(s): normalisation on bytes, lexical walk with exclusion oracle, file symlinks always / directory symlinks on request, prefix stripping, uniqueness, errors, match-products. Proved: normalisation laws (no CR, CRLF and CR to one LF, idempotent, identity without CR), per-node walk rules, error cases, panic-freedom, match-products = three-way difference, and walk EXACTNESS for ALL trees, symbolic links included (since the repair of finding F19): the result holds exactly one entry per file reached through directories, file symlinks and followed directory symlinks that is not excluded (declarative FileAt/FileAtS relations), under its (link-based) path with the first matching strip prefix removed, nothing else, names pairwise distinct - a name already taken is an error also for symlinks -, an unhashable file fails the walk. Every run materialises generated trees (depth <= 4, empty/binary/CR-LF contents, symlinks to files and directories, dangling links, several roots incl. unclean and missing ones), all algorithm subsets plus unknown names, both switches, exclude patterns, strip prefixes, and compares RecordArtifacts with the model fed with crypto/sha* digests; normalisation against the model's byte function; match-products; before/after discipline of run and record start/stop; symlink cycles (no crash/hang).",
+  COMMON_NOTE + "Correspondence only: go-pathspec pattern semantics (oracle), symlink cycles, permissions, Windows paths, the file system itself. F19 (prefix not stripped from symlink keys) was repaired; no known finding is left.",
   "Lean 4 proof (normalisation, walk rules, set algebra) + differential correspondence on materialised directory trees",
   "DESIGN.md §5 C13"),
  "C14": (True,
-  "PARTIAL. Lean transition system of a child writing to two bounded pipes and a parent draining them: proved for ALL volumes, capacities > 0 and schedules that concurrent draining is never stuck, every run is finite, a returned call holds exactly the bytes written; the sequential discipline of the original code deadlocks (kernel-checked witness). Every run executes real commands writing 0, 1, cap-1, cap, cap+1, 4*cap (thorough: 4 MiB) bytes to either stream in any order, ending with status 0..255 or SIGKILL, under a 20 s deadline and compares completion, byte counts, the run-length encoded CONTENT of both streams (every chunk is written in its own letter; model: contentRuns, theorem content_accounts_for_every_byte) and return value.",
+  "PARTIAL. Lean transition system of a child writing to two bounded pipes and a parent draining them: proved for ALL volumes, capacities > 0 and schedules that concurrent draining is never stuck, every run is finite, a returned call holds exactly the bytes written; the sequential discipline of the original code deadlocks (kernel-checked witness); and the same for a command that leaves DESCENDANTS behind which keep its streams open (model with any number of writers): a call that has returned has every byte all of them wrote, every holder has closed, the status is the command's own, the call returns only after the last holder closed. Every run executes real commands writing 0, 1, cap-1, cap, cap+1, 4*cap (thorough: 4 MiB) bytes to either stream in any order, ending with status 0..255 or SIGKILL, under a 20 s deadline and compares completion, byte counts, the run-length encoded CONTENT of both streams (every chunk is written in its own byte - letters, bytes that are not valid UTF-8, control characters; some chunks by a background child after the command ended; model: contentRuns, theorem content_accounts_for_every_byte) and return value.",
   COMMON_NOTE + "Not expressible: kernel pipe semantics, scheduler fairness, that os/exec implements the concurrent discipline (tie only).",
   "Lean 4 proof (deadlock freedom and completeness of the pipe system) + real commands under deadline",
   "DESIGN.md §5 C14"),
